@@ -11,7 +11,7 @@ LIMITS = """CONSTANTS MaxDepth = 8
 
 ALL = "{1,2,3,4,5,6,7,8,9,10,11,12,13,14,15,16}"
 
-MC = """SPECIFICATION Spec
+MC = """SPECIFICATION {spec}
 """ + LIMITS + """          MaxFrames = {frames}
           MaxChunks = {chunks}
           MaxChunks1 = {chunks1}
@@ -27,7 +27,7 @@ DESIGN_INV = "DecodedIsPrefix OneReplyEach NeverClosed BufferParses Quiescent Re
 
 
 def mc(frames, chunks, chunks1=None, univ=ALL, live=False, legacy="{}", emit="ACTION_CONSTRAINT EmitEnd", inv=DESIGN_INV, lemmas=False):
-    return MC.format(frames=frames, chunks=chunks, chunks1=chunks1 or chunks, univ=univ, live="TRUE" if live else "FALSE", legacy=legacy, emit=emit,
+    return MC.format(spec="SpecLive" if live else "Spec", frames=frames, chunks=chunks, chunks1=chunks1 or chunks, univ=univ, live="TRUE" if live else "FALSE", legacy=legacy, emit=emit,
                      inv=inv, lemmas="TRUE" if lemmas else "FALSE")
 
 
